@@ -168,15 +168,15 @@ pub struct SInner { pub counts: Counts, pub actions: Actions, pub store: SStore,
 //@spec         // C07/C19: a closed stream that just lost its last handle wakes the connection task (it may be the last thing it waits for)
 //@spec         ({ let s = old(me).store.spec_get(key);
 //@spec            (s.ref_count == 1 && s.state.closed() && s.pending_send@.len() == 0 && s.buffered_send_data == 0) ==> final(me).actions.task is None }),
-//@loop 0     invariant
-//@loop 0         me.store.held() == old(me).store.held() + 1,
-//@loop 0         me.refs == old(me).refs - 1,
-//@loop 0         stream.ref_count == 0,
-//@loop 0         me.counts.transitions@ + ppp.ghost_len == t1 + ppp1,
-//@loop 0         me.counts.cancelled@ >= old(me).counts.cancelled@ + (if !s_in.state.closed() { 1int } else { 0int }),
-//@loop 0         s_in.state.closed() && s_in.pending_send@.len() == 0 && s_in.buffered_send_data == 0 ==> me.actions.task is None,
-//@loop 0     ensures
-//@loop 0         ppp.ghost_len == 0,                          // C19: the WHOLE queue of unclaimed promises is drained
+//@loop_opt 0     invariant
+//@loop_opt 0         me.store.held() == old(me).store.held() + 1,
+//@loop_opt 0         me.refs == old(me).refs - 1,
+//@loop_opt 0         stream.ref_count == 0,
+//@loop_opt 0         me.counts.transitions@ + ppp.ghost_len == t1 + ppp1,
+//@loop_opt 0         me.counts.cancelled@ >= old(me).counts.cancelled@ + (if !s_in.state.closed() { 1int } else { 0int }),
+//@loop_opt 0         s_in.state.closed() && s_in.pending_send@.len() == 0 && s_in.buffered_send_data == 0 ==> me.actions.task is None,
+//@loop_opt 0     ensures
+//@loop_opt 0         ppp.ghost_len == 0,                          // C19: the WHOLE queue of unclaimed promises is drained
 //@end
 
 proof fn vacuity_probe_streams()
